@@ -4,6 +4,13 @@ From Coq Require Import List NArith ZArith Bool.
 From Verif Require Import Lib.Bytes Lib.Rlp Model.TriggerDef.
 Import ListNotations.
 
+(* compact rendering of byte strings in the generated case files (elaborating a string literal
+   costs about 50 us per character): hex text, runs of zero bytes, named constants *)
+Inductive chunk := CH (h : String.string) | CZ (n : nat) | CB (b : bytes).
+Definition chunk_bytes (c : chunk) : bytes :=
+  match c with CH h => hx h | CZ n => repeat 0%N n | CB b => b end.
+Definition dx (cs : list chunk) : bytes := flat_map chunk_bytes cs.
+
 Definition optZ_eqb (a b : option Z) : bool :=
   match a, b with
   | None, None => true
